@@ -37,6 +37,7 @@ func c40Fds() string {
 type c40Prog struct {
 	name, code string
 	interrupt  bool
+	late       bool // the interrupter is a low-priority actor (vsched.GoLow): every interrupt position costs one deviation
 }
 
 func c40Progs() []c40Prog {
@@ -45,29 +46,29 @@ func c40Progs() []c40Prog {
 	os.WriteFile(filepath.Join(d, "in"), []byte("l1\nl2\n"), 0o644)
 	f := func(n string) string { return filepath.Join(d, n) }
 	return []c40Prog{
-		{"pipeline-values", "put a b c | each {|x| put $x }", false},
-		{"pipeline-bytes", "{ echo a; echo b } | each {|x| put $x }", false},
-		{"early-exit", "range 40 | nop", false},
-		{"stage-fails", "put a | fail x | put c", false},
-		{"capture", "put (put a | each {|x| put $x$x })", false},
-		{"exception-capture", "put ?(fail x | put a)", false},
-		{"redir-out", "echo hi > " + f("o1"), false},
-		{"redir-in-out", "each {|x| put $x } < " + f("in") + " > " + f("o2"), false},
-		{"redir-fails", "fail x > " + f("o3") + " 2> " + f("o4"), false},
-		{"redir-dup-close", "{ echo a; echo b >&2 } 2>&1 3>&-", false},
-		{"peach", "put a b | peach {|x| put $x } | count", false},
+		{"pipeline-values", "put a b c | each {|x| put $x }", false, false},
+		{"pipeline-bytes", "{ echo a; echo b } | each {|x| put $x }", false, false},
+		{"early-exit", "range 40 | nop", false, false},
+		{"stage-fails", "put a | fail x | put c", false, false},
+		{"capture", "put (put a | each {|x| put $x$x })", false, false},
+		{"exception-capture", "put ?(fail x | put a)", false, false},
+		{"redir-out", "echo hi > " + f("o1"), false, false},
+		{"redir-in-out", "each {|x| put $x } < " + f("in") + " > " + f("o2"), false, false},
+		{"redir-fails", "fail x > " + f("o3") + " 2> " + f("o4"), false, false},
+		{"redir-dup-close", "{ echo a; echo b >&2 } 2>&1 3>&-", false, false},
+		{"peach", "put a b | peach {|x| put $x } | count", false, false},
 		// builtins that capture the output of a callback internally, with the callback succeeding and failing
-		{"order-key", "order &key={|x| put $x } [b a]", false},
-		{"order-key-fails", "order &key={|x| fail k } [b a]", false},
-		{"order-less-than-fails", "order &less-than={|a b| fail k } [b a]", false},
-		{"keep-if-fails", "put a b | keep-if {|x| fail k }", false},
-		{"keep-if", "put a b | keep-if {|x| put $true }", false},
-		{"styled-transformer-fails", "put (styled x {|s| fail k })", false},
-		{"capture-fails-midway", "put (put a; fail x)", false},
-		{"nested-capture-fails", "put [(put a | each {|x| put (fail y) })]", false},
-		{"interrupted-pipeline", "range 4 | each {|x| put $x } | count", true},
-		{"interrupted-redir", "range 3 | each {|x| echo $x } > " + f("o5"), true},
-		{"interrupted-peach", "range 3 | peach &num-workers=2 {|x| put $x }", true},
+		{"order-key", "order &key={|x| put $x } [b a]", false, false},
+		{"order-key-fails", "order &key={|x| fail k } [b a]", false, false},
+		{"order-less-than-fails", "order &less-than={|a b| fail k } [b a]", false, false},
+		{"keep-if-fails", "put a b | keep-if {|x| fail k }", false, false},
+		{"keep-if", "put a b | keep-if {|x| put $true }", false, false},
+		{"styled-transformer-fails", "put (styled x {|s| fail k })", false, false},
+		{"capture-fails-midway", "put (put a; fail x)", false, false},
+		{"nested-capture-fails", "put [(put a | each {|x| put (fail y) })]", false, false},
+		{"interrupted-pipeline", "range 4 | each {|x| put $x } | count", true, false},
+		{"interrupted-redir", "range 3 | each {|x| echo $x } > " + f("o5"), true, false},
+		{"interrupted-peach", "range 3 | peach &num-workers=2 {|x| put $x }", true, false},
 	}
 }
 
@@ -83,7 +84,11 @@ func c40Body(p c40Prog) func() {
 		if p.interrupt {
 			ctx, cancel := context.WithCancel(context.Background())
 			defer cancel()
-			vsched.Go(func() { cancel() })
+			if p.late {
+				vsched.GoLow(func() { cancel() })
+			} else {
+				vsched.Go(func() { cancel() })
+			}
 			cfg.Interrupts = ctx
 		}
 		err = ev.Eval(parse.Source{Name: "v", Code: p.code}, cfg)
@@ -110,7 +115,15 @@ func c40Body(p c40Prog) func() {
 
 func c40Scenarios() []vshard.Scenario {
 	var scs []vshard.Scenario
+	progs := c40Progs()
 	for _, p := range c40Progs() {
+		if p.interrupt {
+			p.name += "/late"
+			p.late = true
+			progs = append(progs, p)
+		}
+	}
+	for _, p := range progs {
 		p := p
 		scs = append(scs, vshard.Scenario{
 			Name: p.name,
@@ -143,7 +156,7 @@ func TestVerifC40(t *testing.T) {
 		return
 	}
 	vk.Run(t, "C40", "exploration", func(c *vk.Ctx) {
-		c.Rule("22 programs (pipelines of values and bytes, early exit, failing stages, output and exception capture, builtins that capture a callback's output (order &key/&less-than, keep-if, styled) with failing callbacks, file redirections incl. dup/close, peach; three of them with an interrupt placed by the scheduler at every point) on the real Evaler; every schedule with <=2 departures from the default goroutine; on each: the set of open file descriptors after Eval returned equals the set before, and no goroutine is left parked; then each program is evaluated 200 times in one free-running process and the descriptor set must be the same after every iteration; class = distinct (program, result, blocking profile)")
+		c.Rule("22 programs (pipelines of values and bytes, early exit, failing stages, output and exception capture, builtins that capture a callback's output (order &key/&less-than, keep-if, styled) with failing callbacks, file redirections incl. dup/close, peach; three of them with an interrupt placed by the scheduler at every point, each both with the interrupter as an ordinary goroutine and as a low-priority actor whose step costs one deviation wherever it is placed) on the real Evaler; every schedule with <=2 departures from the default goroutine; on each: the set of open file descriptors after Eval returned equals the set before, and no goroutine is left parked; then each program is evaluated 200 times in one free-running process and the descriptor set must be the same after every iteration; class = distinct (program, result, blocking profile)")
 		c.Assume("pkg/eval rewritten for the controlled scheduler; descriptors are observed through /proc/self/fd; background jobs and explicit file opens are outside the property and not generated")
 		vshard.Run(c, c40Scenarios(), cfg)
 		// sequential repetition on the real primitives (outside the scheduler)
